@@ -455,3 +455,53 @@ Proof.
   - unfold status_of. replace (length (agents dead) <=? S (S a)) with true; [discriminate|]. symmetry. apply Nat.leb_le. vm_compute. lia.
 Qed.
 
+(* the same starvation under a FAIR schedule of rounds: every round gives both agents a turn *)
+Definition witness_rounds : list (list (nat * list Z)) :=
+  [[(0, [1%Z]); (1, [0%Z])]; [(1, [1%Z]); (1, []); (0, [1%Z])]; [(0, []); (0, [0%Z]); (1, [0%Z])]; [(1, []); (0, [])]; [(0, []); (1, [])]].
+
+Lemma run_sched_reach : forall sch s, reach step s (run_sched s sch).
+Proof.
+  induction sch as [|[a ch] r IH]; intros s; [rewrite run_sched_nil; apply reach_refl|].
+  cbn [run_sched]. destruct (finished s); [apply reach_refl|].
+  destruct (step s a ch) as [[[s1 c1] st]|] eqn:E; [|apply IH].
+  eapply reach_trans; [eapply reach_step; [apply reach_refl | exact E] | apply IH].
+Qed.
+
+Lemma witness_rounds_dead : run_sched (init witness 1) (concat witness_rounds) = dead.
+Proof. vm_compute. reflexivity. Qed.
+
+Lemma witness_rounds_fair rd : In rd witness_rounds -> fair_round 2 rd.
+Proof.
+  intros H a Ha. assert (a = 0 \/ a = 1) as [->| ->] by lia;
+    repeat (destruct H as [<-|H]; [eexists; cbn; eauto 6|]); contradiction.
+Qed.
+
+Definition full_statement : Prop :=
+  forall p n rounds, acyclic p -> (forall rd, In rd rounds -> fair_round (S n) rd) -> mu (init p n) <= length rounds ->
+  finished (run_sched (init p n) (concat rounds)) = true.
+
+Theorem full_statement_false : ~ full_statement.
+Proof.
+  intros H.
+  pose (extra := repeat [(0, @nil Z); (1, @nil Z)] (mu (init witness 1))).
+  assert (Hf : forall rd, In rd (witness_rounds ++ extra) -> fair_round 2 rd).
+  { intros rd Hrd. apply in_app_or in Hrd. destruct Hrd as [Hrd|Hrd]; [apply witness_rounds_fair; exact Hrd|].
+    apply repeat_spec in Hrd. subst. intros a Ha. assert (a = 0 \/ a = 1) as [->| ->] by lia; eexists; cbn; eauto. }
+  assert (Hlen : mu (init witness 1) <= length (witness_rounds ++ extra)).
+  { rewrite app_length. unfold extra. rewrite repeat_length. lia. }
+  pose proof (H witness 1 (witness_rounds ++ extra) witness_acyclic Hf Hlen) as G.
+  rewrite concat_app, run_sched_app, witness_rounds_dead in G.
+  rewrite (dead_forever _ (run_sched_reach (concat extra) dead)) in G.
+  destruct dead_shape as (F & _). rewrite F in G. discriminate G.
+Qed.
+
+Lemma step_measure_proof p n s a ch s' ch' site : noup p = true -> reach step (init p n) s ->
+  step s a ch = Some (s', ch', site) -> s' = s \/ mu s' < mu s.
+Proof. intros Hp R. apply step_mu. apply (i_range s (reach_Inv p n s Hp R)). Qed.
+
+Lemma holds_except_proof p n rounds : foreign_wait p = false ->
+  (forall rd, In rd rounds -> fair_round (S n) rd) -> mu (init p n) <= length rounds ->
+  finished (run_sched (init p n) (concat rounds)) = true.
+Proof.
+  intros Hd. apply fair_termination_proof. unfold foreign_wait in Hd. apply negb_false_iff in Hd. exact Hd.
+Qed.
